@@ -297,6 +297,12 @@ def continuous():
                      ['call', 'D', 'send', {'command': 'next', 'prompt_no': 1, 'trace_no': 1}], settle(0.5), ['sample'],
                      ['child', 'return'], settle(0.3)]
     out.append(S(steps, dict(family='continuous', case='refused-during-close', point='running-open-prompt', who='other', expect_complete=False), config={'answer': None}))
+    # a continuous run in progress, a close waiting for it, and one more request pending behind the close:
+    # the request is refused after the object is closed; the flag must be off then
+    for api in ('run_and_continue', 'run_continue_and_wait'):
+        steps = START + [['call', 'A', 'run_and_continue'], settle(0.4), ['call', 'B', 'close'], settle(0.2), ['call', 'C', api], settle(0.2)] + en + \
+            [['child', 'return'], settle(0.5)] + en + [['sample']]
+        out.append(S(steps, dict(family='continuous', case='pending-request-across-close:' + api, expect_complete=False), config={'answer': None}))
     return out
 
 
